@@ -191,6 +191,13 @@ theorem last_wins_listener (o : Oracle) (s : State) (hL : LInv s) (lc : Listener
 
 /-! ## removed objects are gone -/
 
+/-- five hosts `.1 … .5` and the 20 ordered pairs of distinct indices (for the witness below and the examples) -/
+def exAddr : Nat → String
+  | 1 => "10.0.0.1:80" | 2 => "10.0.0.2:80" | 3 => "10.0.0.3:80" | 4 => "10.0.0.4:80" | 5 => "10.0.0.5:80" | _ => "10.0.0.9:80"
+def exFive : List Host := [1, 2, 3, 4, 5].map (fun k => ⟨exAddr k, "", 1⟩)
+def exPairs : List (Nat × Nat) :=
+  ([1, 2, 3, 4, 5].flatMap (fun x => [1, 2, 3, 4, 5].map (fun y => (x, y)))).filter (fun p => p.1 != p.2)
+
 /-- **removed_gone (clusters)**: after a successful `RemovePrimaryCluster names` every named cluster is absent, live and in the
 store. -/
 theorem removed_gone_clusters (o : Oracle) (s : State) (hI : Inv o s) (names : List String)
@@ -221,24 +228,53 @@ theorem removed_stays_gone (o : Oracle) (s : State) (hI : Inv o s) (n : String) 
   have hl := runFrom_keeps_absent o ops h hno
   exact ⟨hl, (inv_runFrom ops hI).c_none n hl⟩
 
-/-- **removed_gone (hosts)**: after `RemoveClusterHosts c addrs` on an existing cluster no listed address is left, every other
-host is kept, live and stored. -/
+/-- **removed_gone (hosts)**: `RemoveClusterHosts c addrs` (`TriggerHostDel`) on an existing cluster, for EVERY address list —
+any length, any order, with duplicates, with addresses the cluster does not have: the call succeeds and the new host set, live
+and stored, is EXACTLY the old hosts whose address is not listed, in ascending address order (the deletions preserve the order
+of the sorted slice the searches rely on). `removeHosts` is the loop as written: Go's binary `sort.Search` with the regenerated
+predicate, the regenerated guard and the regenerated deletion statement(s), one iteration per listed address. -/
 theorem removed_gone_hosts (o : Oracle) (s : State) (hI : Inv o s) (c : String) (lc : LiveCluster) (addrs : List String)
     (hc : s.clusters c = some lc) :
-    ∃ hosts, (step o s (.removeHosts c addrs)).1.clusters c = some ⟨lc.tag, hosts⟩ ∧
-      (step o s (.removeHosts c addrs)).1.cstore c = some ⟨lc.tag, hosts⟩ ∧
-      (∀ h ∈ hosts, h.addr ∉ addrs) ∧
-      (∀ h, h ∈ hosts ↔ (h ∈ lc.hosts ∧ h.addr ∉ addrs)) := by
+    (step o s (.removeHosts c addrs)).2 = true ∧
+    (step o s (.removeHosts c addrs)).1.clusters c =
+      some ⟨lc.tag, (sortByAddr lc.hosts).filter (fun h => !decide (h.addr ∈ addrs))⟩ ∧
+    (step o s (.removeHosts c addrs)).1.cstore c =
+      some ⟨lc.tag, (sortByAddr lc.hosts).filter (fun h => !decide (h.addr ∈ addrs))⟩ ∧
+    (∀ h, h ∈ (sortByAddr lc.hosts).filter (fun h => !decide (h.addr ∈ addrs)) ↔ (h ∈ lc.hosts ∧ h.addr ∉ addrs)) := by
   have hI' := inv_step hI (.removeHosts c addrs)
-  obtain ⟨_, h2, _⟩ := updateHosts_some (removeHosts addrs) hc
+  obtain ⟨h1, h2, _⟩ := updateHosts_some (removeHosts addrs) hc
   have hnd := (hI.c_some c lc hc).2
-  refine ⟨removeHosts addrs lc.hosts, h2, (hI'.c_some c _ h2).1, ?_, ?_⟩
-  · intro h hm
-    rw [removeHosts_eq addrs lc.hosts hnd] at hm
-    simpa using (List.mem_filter.mp hm).2
-  · intro h
-    rw [removeHosts_eq addrs lc.hosts hnd, List.mem_filter, (sortByAddr_perm lc.hosts).mem_iff]
-    simp
+  have h2' : (step o s (.removeHosts c addrs)).1.clusters c =
+      some ⟨lc.tag, (sortByAddr lc.hosts).filter (fun h => !decide (h.addr ∈ addrs))⟩ := by
+    rw [← removeHosts_eq addrs lc.hosts hnd]; exact h2
+  refine ⟨h1, h2', (hI'.c_some c _ h2').1, ?_⟩
+  intro h
+  rw [List.mem_filter, (sortByAddr_perm lc.hosts).mem_iff]
+  simp
+
+/-- … so the ORDER of the listed addresses (and listing one twice) never matters: two lists naming the same addresses leave the
+same host set, live and stored. -/
+theorem removed_gone_hosts_any_order (o : Oracle) (s : State) (hI : Inv o s) (c : String) (lc : LiveCluster)
+    (addrs addrs' : List String) (hc : s.clusters c = some lc) (hsame : ∀ a, a ∈ addrs ↔ a ∈ addrs') :
+    (step o s (.removeHosts c addrs)).1.clusters c = (step o s (.removeHosts c addrs')).1.clusters c ∧
+    (step o s (.removeHosts c addrs)).1.cstore c = (step o s (.removeHosts c addrs')).1.cstore c := by
+  obtain ⟨_, h2, h3, _⟩ := removed_gone_hosts o s hI c lc addrs hc
+  obtain ⟨_, h2', h3', _⟩ := removed_gone_hosts o s hI c lc addrs' hc
+  have : (fun h : Host => !decide (h.addr ∈ addrs)) = (fun h : Host => !decide (h.addr ∈ addrs')) := by
+    funext h; simp [hsame h.addr]
+  rw [h2, h3, h2', h3', this]
+  exact ⟨rfl, rfl⟩
+
+/-- **swap_with_last_leaves_host** (negative witness, machine-checked): the same loop with the deletion "move the LAST host
+into the slot and shorten the slice" un-sorts the slice, and the search for a later address of the same call misses it: removing
+`[.1, .2]` from five hosts leaves `.2` in the host set, `[.2, .1]` happens to work, and exactly 5 of the 20 ordered pairs of
+distinct addresses fail. (The regenerated deletion is the order-preserving one; `removed_gone_hosts` is about it.) -/
+theorem swap_with_last_leaves_host :
+    (removeHostsWith swapLastDelete [exAddr 1, exAddr 2] exFive).map (·.addr) = [exAddr 5, exAddr 2, exAddr 3, exAddr 4] ∧
+    (removeHostsWith swapLastDelete [exAddr 2, exAddr 1] exFive).map (·.addr) = [exAddr 4, exAddr 5, exAddr 3] ∧
+    (removeHosts [exAddr 1, exAddr 2] exFive).map (·.addr) = [exAddr 3, exAddr 4, exAddr 5] ∧
+    exPairs.filter (fun p => (removeHostsWith swapLastDelete [exAddr p.1, exAddr p.2] exFive).any
+      (fun h => h.addr == exAddr p.1 || h.addr == exAddr p.2)) = [(1, 2), (1, 5), (2, 3), (2, 5), (3, 4)] := by decide
 
 /-- **removed_gone (routes)**: a successful `RemoveAllRoutes` on a known router empties the selected virtual host, in the live
 table and in the stored configuration, at the same index. -/
@@ -409,6 +445,10 @@ example : ((run exOracle hist).rstore "r").map (fun c => c.vhosts.map (fun v => 
 -- endpoints_union's hypothesis (cluster exists) and a 3-locality assignment with a duplicate address across localities
 example : (run exOracle (hist ++ [.xdsEndpoints [("c", [[⟨"10.0.0.1:1", some 5⟩], [⟨"10.0.0.2:1", none⟩, ⟨"10.0.0.1:1", some 300⟩], [⟨"10.0.0.3:1", some 0⟩]])]])).clusters "c"
     = some ⟨1, [⟨"10.0.0.1:1", "", 5⟩, ⟨"10.0.0.2:1", "", 0⟩, ⟨"10.0.0.3:1", "", 1⟩]⟩ := by decide
+-- removed_gone_hosts: a multi-address call in descending order with a duplicate and an absent address, on hosts given unsorted
+example : (run exOracle [.addOrUpdateCluster "c" 1 [], .updateHosts "c" exFive.reverse,
+      .removeHosts "c" [exAddr 4, exAddr 2, exAddr 9, exAddr 4, exAddr 1]]).clusters "c" =
+    some ⟨1, [⟨exAddr 3, "", 1⟩, ⟨exAddr 5, "", 1⟩]⟩ := by decide
 -- removed_gone_clusters / removed_stays_gone hypotheses
 example : (step exOracle (run exOracle hist) (.removeClusters ["c"])).2 = true := by decide
 example : single (.xdsEndpoints [("c", [[], []])]) ∧ addsCluster "c" (.updateHosts "c" []) = false := by decide
